@@ -39,6 +39,14 @@ pub fn reset() {
     CLOCK.with(|c| *c.borrow_mut() = None);
 }
 
+/// forget every pending task (crash)
+pub fn reset_tasks() {
+    TASKS.with(|t| {
+        let v = std::mem::take(&mut *t.borrow_mut());
+        drop(v);
+    });
+}
+
 pub struct JoinHandle;
 
 /// label attached to the tasks spawned from now on (harness bookkeeping: which key they belong to)
@@ -347,6 +355,15 @@ pub fn hash_of(id: &[u8]) -> SymU<256> {
         crate::assume(h.seq(o).not().0);
     }
     h
+}
+
+/// pre-assign H[id] (e.g. a constant, to keep a harness's distance comparisons out of the solver)
+pub fn set_hash(id: &[u8], h: SymU<256>) {
+    HTABLE.with(|t| {
+        let mut t = t.borrow_mut();
+        t.retain(|(b, _)| b != id);
+        t.push((id.to_vec(), h));
+    });
 }
 
 pub fn hash_name(id: &[u8]) -> String {
